@@ -127,6 +127,12 @@ impl<T: ?Sized> Mutex<T> {
         unsafe { &*self.data.get() }
     }
 
+    /// Returns the raw mutex word without any synchronization.
+    #[cfg(feature = "verif-hooks")]
+    pub(crate) fn verif_raw_state(&self) -> u32 {
+        self.key.load(Ordering::Relaxed)
+    }
+
     /// Lock the mutex.
     ///
     /// The mutex will be unlocked when the result is dropped.
@@ -190,6 +196,8 @@ impl<T: ?Sized> Mutex<T> {
             Ok(_) => return,
             Err(v) => v,
         };
+        #[cfg(feature = "verif-hooks")]
+        crate::verif::pause(crate::verif::PAUSE_AFTER_FAILED_CAS);
 
         const PASSIVE_SPIN: i32 = 5;
         loop {
@@ -217,6 +225,8 @@ impl<T: ?Sized> Mutex<T> {
                 return;
             }
             wait = Self::MUTEX_SLEEPING;
+            #[cfg(feature = "verif-hooks")]
+            crate::verif::pause(crate::verif::PAUSE_BEFORE_FUTEX_WAIT);
             futex_wait(&self.key, Self::MUTEX_SLEEPING);
         }
     }
@@ -241,6 +251,14 @@ impl<T: ?Sized> Mutex<T> {
         use crate::mutex::linux::futex_wake;
         #[cfg(target_os = "macos")]
         use crate::mutex::macos::futex_wake;
+
+        // Runs the pause hook between the `swap` below and the
+        // wake-up.
+        #[cfg(feature = "verif-hooks")]
+        let futex_wake = |key: &AtomicU32, cnt: u32| {
+            crate::verif::pause(crate::verif::PAUSE_BEFORE_FUTEX_WAKE);
+            futex_wake(key, cnt)
+        };
 
         match self.key.swap(Self::MUTEX_UNLOCKED, Ordering::SeqCst) {
             Self::MUTEX_UNLOCKED => ::buggy::bug!("unlock of locked mutex"),
